@@ -605,10 +605,13 @@ macro_rules! lemma_f {
             unsafe {
                 SEL_CALLS = 0;
                 FREE_MODE = $free && stubbed;
-                if FREE_MODE {
+                if $free {
+                    // drawn natively as well, to keep the concrete-value stream of a replay aligned
                     let fq: [u32; 3] = kani::any();
-                    kani::assume(fq[0] <= fq[1] && fq[1] <= fq[2]);
-                    FREEQ = fq;
+                    if FREE_MODE {
+                        kani::assume(fq[0] <= fq[1] && fq[1] <= fq[2]);
+                        FREEQ = fq;
+                    }
                 }
             }
             let mut nonzero = 0usize;
